@@ -159,6 +159,14 @@ theorem s_txCb : SafeM cap txCallback := by unfold txCallback; safe0
 theorem s_resetState : SafeM cap (modH resetState) := by
   apply SafeI_modH; intro _ hi; exact ⟨hi.1, hi.2.1, Nat.zero_le _⟩
 
+theorem s_setActiveModem (opmod modulation : Nat) : SafeM cap (modH (setActiveModem opmod modulation)) := by
+  apply SafeI_modH; intro h hi
+  unfold setActiveModem
+  dsimp only
+  split
+  · exact ⟨hi.1, hi.2.1, Nat.zero_le _⟩
+  · exact hi
+
 macro "safe_fsk" : tactic => `(tactic| repeat (first
     | exact s_batch _ _ | exact s_txCb | exact s_getRssi | exact s_resetState
     | safe_step | safe_mod | safe_ubx | (apply DM.SafeI_ite <;> intro _) | split | dsimp only))
@@ -377,6 +385,7 @@ theorem s_calibrateLoop (fuel : Nat) : SafeM cap (calibrateLoop fuel) := by
 macro "safe1" : tactic => `(tactic| repeat (first
   | exact s_checkModulation _ | exact s_checkFskOok | exact s_appendRegister _ _ _ | exact s_getFrequency
   | exact s_setFrequency _ | exact s_fskTx _ | exact s_fskTxAddr _ _ | exact s_calibrateLoop _ | exact s_irq _
+  | exact s_setActiveModem _ _
   | safe_step | safe_mod | safe_ubx | (apply DM.SafeI_ite <;> intro _) | split | dsimp only))
 
 theorem s_setLdro (e : Bool) : SafeM cap (loraSetLowDatarateOptimization e) := by unfold loraSetLowDatarateOptimization; safe1
@@ -391,6 +400,7 @@ macro "safe2" : tactic => `(tactic| repeat (first
   | exact s_setLdro _ | exact s_getBw | exact s_reload | exact s_snr | exact s_txSetOcp _ _
   | exact s_checkModulation _ | exact s_checkFskOok | exact s_appendRegister _ _ _ | exact s_getFrequency
   | exact s_setFrequency _ | exact s_fskTx _ | exact s_fskTxAddr _ _ | exact s_calibrateLoop _ | exact s_irq _
+  | exact s_setActiveModem _ _
   | safe_step | safe_mod | safe_ubx | (apply DM.SafeI_ite <;> intro _) | split | dsimp only))
 
 /-- the caller's side of `sx127x_lora_set_frequency_hopping`: the array has at least
